@@ -537,7 +537,8 @@ def run_overiteration(ctx):
 def run(ctx):
     ctx.note('rule', 'one case = one seeded problem instance (solver family x plain / constant-weighted space x conditioning class '
                      'x planted problem kind x number of operator blocks x step rule x start point); conditioning classes, '
-                     'problem kinds and step rules are enumerated; distinct = distinct case keys')
+                     'problem kinds (lasso, box-ls, elastic-net), step rules and documented solver options (lam, l, h, gamma_primal, gamma_dual, '
+                     'x_relax) are enumerated; plus 1000-2500 tiny over-iterated Krylov problems per shard; distinct = distinct case keys')
     ctx.note('assumptions', ['convergence is restated as bounded progress on kappa <= 5 problems (thresholds leave >= 3 orders of '
                              'margin on the unchanged tree)', 'harness operator WMat has an exact adjoint in weighted spaces',
                              'NumPy SVD / lstsq are the reference for norms and least-squares solutions'])
